@@ -174,4 +174,14 @@ abbrev sval (x : BitVec w) : Int := x.toInt
 /-- the mathematical value of a `BitVec` read as an unsigned C integer -/
 abbrev uval (x : BitVec w) : Nat := x.toNat
 
+/-! ### cfunb: copies between arrays (`memcpy(q, p, n)` on byte arrays; NOTES_cfunb.md) -/
+
+/-- `memcpy(dst + doff, src + soff, n)`: the `n` elements of `src` from `soff` on replace the `n` elements of `dst`
+from `doff` on (`src` is the content BEFORE the copy; for a copy inside one array `src = dst`) -/
+def blit (dst : List α) (doff : Nat) (src : List α) (soff n : Nat) : List α :=
+  dst.take doff ++ (src.drop soff).take n ++ dst.drop (doff + n)
+
+/-- the ranges `[a, a+n)` and `[b, b+n)` of one array do not overlap (`memcpy` inside one object, C11 7.24.2.1p2) -/
+def disjoint (a b n : Nat) : Bool := decide (a + n ≤ b ∨ b + n ≤ a)
+
 end Carquet.Impl.CSem
